@@ -15,7 +15,14 @@ Refresh part.  FedRefresh.tla models the executor's shared state (planner, execu
 with the schema poller and concurrent requests; TLC checks that no map read overlaps the poller's
 map write (and that the design without the read lock does violate it - vacuity guard).  The driver
 parks the real poller inside its write / a real request at its read through the hooks and
-FedRefresh_Trace.tla validates the recorded event order against the model."""
+FedRefresh_Trace.tla validates the recorded event order against the model.
+
+Planner/executor model.  Fed.tla models planObject (local selections, sub-plans per owning service,
+paths lifted through children, the federation key) and execute (targets found by walking the path,
+result i merged into target i).  TLC checks Transparent / OnlyExposed / HopsOK for every ownership x
+every query of a bounded grammar (and that forgetting to lift paths or merging in reverse order
+breaks it); the real planner is asked for its plan of every one of those cases (verif hook VerifPlan)
+and Fed_Trace2.tla checks that it is the model's plan."""
 import json
 import os
 
@@ -86,6 +93,37 @@ def run(tier, seed, replay=None):
     if hang:
         v.report(None, "a request started during a schema refresh never returned", {"events": hang})
 
+    # ---- the planner/executor model (Fed.tla): theorems for every ownership x query of its grammar, and the
+    # real planner's plan = the model's plan on every one of those cases
+    cases = os.path.join(sc, "fedcases.ndjson")
+    g = vlib.tlc("Fed_Gen", "Fed_Gen.cfg", env={"OUT": cases}, workers=8, timeout=1200)
+    if not g.ok or not os.path.exists(cases):
+        raise Inconclusive("Fed_Gen / Fed_MC failed on the model: %s\n%s" % (g.invariant, g.out[-2000:]))
+    states += g.distinct
+    trans += g.generated
+    for cfg in ("Fed_MC_reversed.cfg", "Fed_MC_nolift.cfg"):
+        gd = vlib.tlc("Fed_MC", cfg, workers=4, timeout=600)
+        if gd.ok:
+            raise Inconclusive("%s no longer fails (vacuity guard of the planner model)" % cfg)
+        states += gd.distinct
+        trans += gd.generated
+    plans = os.path.join(sc, "fedplans.ndjson")
+    vlib.vh(["fedplan", "-cases", cases, "-out", plans], timeout=900)
+    pbad = os.path.join(sc, "fedplans_bad.ndjson")
+    pt = vlib.tlc("Fed_Trace2", "Fed_Trace2.cfg", env={"RECS": plans, "OUT": pbad}, workers=1, timeout=1200, heap="4g")
+    if not pt.ok or not os.path.exists(pbad):
+        raise Inconclusive("Fed_Trace2 did not complete:\n" + pt.out[-3000:])
+    prow = vlib.read_ndjson(plans)
+    if pt.distinct != len(prow) + 1:
+        raise Inconclusive("Fed_Trace2 consumed %d of %d plan records" % (pt.distinct - 1, len(prow)))
+    states += pt.distinct
+    trans += pt.generated
+    for b in vlib.read_ndjson(pbad):
+        r = prow[b["l"] - 1]
+        v.report(None, "%s: %s under ownership %s %s" % (",".join(b["why"]), r["text"], r["owner"], r["err"][:120]),
+                 {"why": b["why"], "query": r["text"], "owner": r["owner"], "real_plan": r["plan"], "err": r["err"]})
+    nplans = len(prow)
+
     # ---- transparency
     nparts, nq = (24, 30) if quick else (150, 60)
     batches = [("plain", ["-seed", seed * 10 + 1]), ("directives", ["-seed", seed * 10 + 2, "-dirs"])]
@@ -152,12 +190,15 @@ def run(tier, seed, replay=None):
                 "batches with @skip/@include); every text goes through the real gateway and the single server; non-trivial = the "
                 "gateway sent at least one sub-query; distinct = different (partition, selector, text).  Refresh: %d scenarios with "
                 "the real poller parked in its map write / a real request parked at its map read, validated against FedRefresh.tla; "
-                "FedRefresh model-checked exhaustively with 3 requests x 3 sub-queries x 3 schema versions"
+                "FedRefresh model-checked exhaustively with 3 requests x 3 sub-queries x 3 schema versions.  Planner model: every "
+                "ownership of 7 fields over 2 services x every query of Fed_MC's grammar: Transparent / OnlyExposed / HopsOK on the "
+                "model, and the real planner's plan compared with the model's plan on each case"
                 % (nparts, nq, nref),
         "samples": samples,
         "subqueries_checked_against_exposed_fields": nsub,
         "subqueries_per_request_histogram": {str(k): hops[k] for k in sorted(hops)},
         "refresh_scenarios": len(scns), "refresh_scenarios_accepted": traces_ok,
+        "planner_model_cases": nplans,
         "known_finding_cases": kf,
         "exhaustive": False,
     }, [
